@@ -126,17 +126,32 @@ def run_history(rng, res, hist_id):
         res.fail({'history': hist_id, 'log': log}, 'C20: a history raised %s' % lib.exc_name(e), got=traceback.format_exc()[-400:])
 
 def view_write_through(rng, res):
-    """chained indexed assignment x[i][j] = v writes through to x"""
+    """chained indexed assignment x[i][j] = v writes through to x; so does a write through a slice y = x[a:b], and a write to x is
+    seen through a row r = x[i] taken earlier.  Formats of the core domain and (the statement does not depend on the word) of 64 bits and more"""
     fx = lib.impl(); import numpy as np
-    x = fx.Fxp(np.zeros((3, 3)), True, 12, 4)
+    s_, nw, nf = rng.choice([(True, 12, 4), (True, 12, 4), (False, 8, 0), (True, 32, 16), (True, 63, 8), (True, 64, 8), (False, 64, 0), (True, 72, 4), (False, 96, 10), (True, 128, 64)])
+    kind = rng.choice(['chained', 'chained', 'slice', 'row_sees_parent'])
+    x = fx.Fxp(np.zeros((3, 3)), s_, nw, nf)
     i, j = rng.randrange(3), rng.randrange(3)
-    x[i][j] = 1.5
-    res.count('V:view-write-through', key=(i, j), nontrivial=True)
-    if float(np.asarray(x.get_val())[i, j]) != 1.5 or np.count_nonzero(np.asarray(x.val)) != 1:
-        res.fail({'i': i, 'j': j}, 'C20: chained indexed assignment x[i][j] = v does not write through to x', expected=1.5, got=np.asarray(x.get_val()).tolist()); return
+    c = {'i': i, 'j': j, 'f': [s_, nw, nf], 'kind': kind}
+    res.count('V:view-write-through', key=repr(c), nontrivial=True)
+    try:
+        if kind == 'chained': x[i][j] = 3
+        elif kind == 'slice':
+            a = 0 if i < 2 else 1; y = x[a:a + 2]; y[i - a, j] = 3
+        else:
+            r = x[i]; x[i, j] = 3
+            if [Fraction(int(v)) / Fraction(2) ** nf for v in np.asarray(r.val).reshape(-1).tolist()] != [Fraction(3) if k == j else Fraction(0) for k in range(3)]:
+                res.fail(c, 'C20: a write to x is not seen through the row x[i] taken earlier (indexing does not return a view of the values)', expected='3 at column %d' % j, got=[int(v) for v in np.asarray(r.val).reshape(-1).tolist()]); return
+    except Exception as e:
+        res.fail(c, 'C20: an indexed write through a view raised %s' % lib.exc_name(e), got=str(e)[:200]); return
+    codes = [int(v) for v in np.asarray(x.val).reshape(-1).tolist()]
+    want = [0] * 9; want[3 * i + j] = 3 * 2 ** nf
+    if codes != want:
+        res.fail(c, 'C20: chained indexed assignment x[i][j] = v / a write through a slice does not write through to x', expected=want, got=codes); return
     # ... and every value view of x shows it (x.real is a view of the values too)
     if np.asarray(x.real).tolist() != np.asarray(x.get_val()).tolist():
-        res.fail({'i': i, 'j': j}, 'C20: after a write through a view, x.real does not show the values of x (stale)', expected=np.asarray(x.get_val()).tolist(), got=np.asarray(x.real).tolist())
+        res.fail(c, 'C20: after a write through a view, x.real does not show the values of x (stale)', expected=np.asarray(x.get_val()).tolist(), got=np.asarray(x.real).tolist())
 
 def deep_same(a, b):
     """same types and same contents, recursively (lists / tuples / ndarrays / scalars)"""
@@ -212,7 +227,7 @@ def shard(shard, nshards, rng, tier, extra):
     for h in range((1500 if tier == 'quick' else 40000) // nshards):
         hseed = rng.getrandbits(62)                     # every history has its own generator, so that it can be replayed alone
         run_history(random.Random(hseed), res, hseed)
-    for _ in range(5): view_write_through(rng, res)
+    for _ in range(12 if tier == 'quick' else 200): view_write_through(rng, res)
     if shard == 0:
         inputs_unchanged(rng, res); clip_bounds_unchanged(res); invalid_config(rng, res)
     return res
@@ -224,7 +239,8 @@ def replay(payload):
     import random
     res = Result(); c = payload['case']
     if 'history' in c: run_history(random.Random(c['history']), res, c['history'])
-    elif 'i' in c: view_write_through(random.Random(0), res); view_write_through(random.Random(1), res)
+    elif 'i' in c:
+        for k in range(120): view_write_through(random.Random(k), res)
     elif 'container' in c: inputs_unchanged(None, res)
     elif 'clip' in c: clip_bounds_unchanged(res)
     elif 'key' in c: invalid_config(None, res)
